@@ -102,10 +102,14 @@ def run(chk):
                 nx, ny = -nx, -ny
             m["ridge coordinates"] = [[[float(round(a[0] - nx * 8e5 - dx)), float(round(a[1] - ny * 8e5 - dy))],
                                        [float(round(b[0] - nx * 8e5 + dx)), float(round(b[1] - ny * 8e5 + dy))]]]
-            if rng.random() < 0.5:
-                m["specific heat"] = float(round(rng.uniform(900, 1600)))
+            if rng.random() < 0.6:
+                m["specific heat"] = float(round(rng.uniform(900, 2500)))
             if rng.random() < 0.5:
                 m["thermal expansion coefficient"] = round(rng.uniform(2e-5, 4e-5), 7)
+            if rng.random() < 0.6:
+                # the region above the slab top belongs to the feature too (the model cools the mantle wedge there)
+                for sg in f["segments"]:
+                    sg["top truncation"] = [-float(round(rng.uniform(5e4, 1.5e5)))]
         f["temperature models"] = [m]
         f["composition models"] = [{"model": "uniform", "compositions": [0]}]
         slot = cs.add_world(wj, model=False)
